@@ -113,3 +113,14 @@ func (v *VerifCommitment) Dump() (map[ServerID]uint64, uint64, uint64) {
 	}
 	return m, v.c.commitIndex, v.c.startIndex
 }
+
+// VerifLeaderChPeek reports what LeaderCh currently holds without consuming it (harness, scheduler context only).
+func (r *Raft) VerifLeaderChPeek() (v bool, ok bool) {
+	select {
+	case v = <-r.leaderCh:
+		r.leaderCh <- v
+		return v, true
+	default:
+		return false, false
+	}
+}
